@@ -35,6 +35,14 @@ type Solver struct {
 	Log     io.Writer
 }
 
+func slowDump() time.Duration {
+	if os.Getenv("GOSYM_DUMPSLOW_MS") != "" {
+		n, _ := strconv.Atoi(os.Getenv("GOSYM_DUMPSLOW_MS"))
+		return time.Duration(n) * time.Millisecond
+	}
+	return 3 * time.Second
+}
+
 type SolverStats struct {
 	Queries  int
 	Sat      int
@@ -353,7 +361,7 @@ func (s *Solver) Check() Result {
 		lines, ok = s.readUntilMark(time.Duration(s.TimeoutMs)*time.Millisecond*2 + 5*time.Second)
 	}
 	s.Stats.Wall += time.Since(t0)
-	if d := os.Getenv("GOSYM_DUMPSLOW"); d != "" && time.Since(t0) > 3*time.Second {
+	if d := os.Getenv("GOSYM_DUMPSLOW"); d != "" && time.Since(t0) > slowDump() {
 		var sb strings.Builder
 		sb.WriteString("; " + s.Kind + " " + strings.Join(s.ExtraArgs, " ") + " " + strings.Join(lines, ",") + "\n(set-logic ALL)\n")
 		for _, lv := range s.levels {
